@@ -330,11 +330,10 @@ class RecipeTransformer(peggie.ParseTreeTransformer):
         first, rest = children
 
         out = String(first)
-        if rest is not None:
-            sp, rest_text = rest
+        for sp, substrings in rest:
             if sp is not None:
                 out.substrings.append(Substring(sp.start, sp.string))
-            out.substrings.extend(rest_text.substrings)
+            out.substrings.extend(substrings)
 
         return out
 
